@@ -127,17 +127,54 @@ theorem J_negFloat {L : Nat} {c p : St} (h : Rel L c p) (bits : Nat) :
   refine J_emitFunc1_minus hr ?_
   rw [emitFloat_ev h.w.vc h.w.bc bits hxc, emitFloat_ev h.w.vp h.w.bp bits hxp]
 
+/-- `EvalPrevValue` when the previous opcode carries no operand-literal: it depends on that opcode only -/
+theorem evalPrev_nl {s : St} (hw : WOk s) (h : NL s) :
+    s.evalPrev = .ok (if (ent s 0).op = OP_STORE_INT0 then some (false, 0) else none) := by
+  unfold St.evalPrev
+  rw [prevOp_eq s hw]
+  have h' := of_decide_eq_false h
+  have e0 : OP_STORE_INT0 = 12 := rfl
+  have e1 : OP_STORE_INT1 = 13 := rfl
+  have e2 : OP_STORE_INT2 = 14 := rfl
+  have e3 : OP_STORE_INT3 = 15 := rfl
+  have e4 : OP_STORE_INT4 = 16 := rfl
+  have e8 : OP_STORE_INT8 = 17 := rfl
+  have ef : OP_STORE_FLOAT = 21 := rfl
+  simp only [ok_bind, e0, e1, e2, e3, e4, e8, ef] at h' ⊢
+  by_cases a0 : (ent s 0).op = 12
+  · simp [a0]
+  · have a1 : (ent s 0).op ≠ 13 := by omega
+    have a2 : (ent s 0).op ≠ 14 := by omega
+    have a3 : (ent s 0).op ≠ 15 := by omega
+    have a4 : (ent s 0).op ≠ 16 := by omega
+    have a8 : (ent s 0).op ≠ 17 := by omega
+    have af : (ent s 0).op ≠ 21 := by omega
+    simp [a0, a1, a2, a3, a4, a8, af]
+
+/-- after an operand that ends in a non-literal opcode, both passes see the same (empty or zero) previous value -/
+theorem evalPrev_eq_of_nl {L : Nat} {c p : St} (h : Rel L c p) (hc : NL c) (hp : NL p) : c.evalPrev = p.evalPrev := by
+  rw [evalPrev_nl h.w.vc hc, evalPrev_nl h.w.vp hp]
+  rcases h.topCases with heq | ⟨h1, h2⟩
+  · rw [heq]
+  · rw [if_neg (untested_elim h1).1, if_neg (untested_elim h2).1]
+
 theorem ms_f1 (op : Nat) (x : Node) (ih1 : MSP x) : MSP (.f1 op x) := by
   refine ⟨fun hpl => ?_, fun hpl => ?_, fun hpl => ?_⟩ <;> intro L c p h
   · simp only [emit]
     have hx : x.plain = true := by simp only [Node.plain, Bool.and_eq_true] at hpl; exact hpl.2
     by_cases hop : op = OP_UN_MINUS
     · subst hop
-      have hl : x.isLit = true := by simp [Node.plain] at hpl; exact hpl.1
-      cases x with
-      | int v => simp only [emit]; exact J_negInt h v
-      | float b => simp only [emit]; exact J_negFloat h b
-      | _ => simp [Node.isLit] at hl
+      have hl : x.isLit = true ∨ x.endsNL = true := by simp [Node.plain] at hpl; exact hpl.1
+      rcases hl with hl | hn
+      · cases x with
+        | int v => simp only [emit]; exact J_negInt h v
+        | float b => simp only [emit]; exact J_negFloat h b
+        | _ => simp [Node.isLit] at hl
+      · refine J.bind (J.withEq (ih1.e hx h)) (fun _ => by pl_auto) ?_
+        intro c1 p1 ⟨hr, hxc, hxp⟩
+        have tc : T c1 := wp_of_eq_ok (endsNL_spec x c hn h.w.vc) hxc
+        have tp : T p1 := wp_of_eq_ok (endsNL_spec x p hn h.w.vp) hxp
+        exact J_emitFunc1_minus hr (evalPrev_eq_of_nl hr tc.2 tp.2)
     · exact J.bind (ih1.e hx h) (fun _ => by pl_auto) (fun c1 p1 h1 => J_emitFunc1 h1 op hop)
   · simp only [emitRef]; ms_steps
   · simp only [emitAssign]; ms_steps
